@@ -84,10 +84,6 @@ def _ccchain(Y, a, b, w, k):
     return Mx
 
 
-def _lcolsT(Mx, r):
-    return Mx
-
-
 INTERP_EXT = {
     'cheb': _cheb, 'cmode': _cmode, 'modesum': _modesum, 'chebsum': _chebsum, 'cslset': _cslset, 'dct1': _dct1, 'dct1sum': _dct1sum,
     'sgnpow': _sgnpow, 'cstep2': _cstep2, 'ccchain': _ccchain, 'pi': lambda: math.pi, 'cos': lambda x: math.cos(float(x)),
